@@ -62,6 +62,7 @@ let abstract ?(firstdelay = 0) ?(window = -1) ?(backoff = 1) ?(cmdbackoff = 1) (
   let lazy_ = ref false and force = ref false in
   let cancelled = Hashtbl.create 8 in
   let timer_start = ref (-1) and timer_d = ref 0 and first_fire = ref (-1) in
+  let sticky_req = ref false in   (* a fire-now command registered with the running sequence (lives until the sequence's outcome) *)
   let req = Hashtbl.create 8 in   (* commands whose fire-now marker was seen and that have not executed / returned since *)
   let add e = out := e :: !out in
   List.iter
@@ -84,7 +85,7 @@ let abstract ?(firstdelay = 0) ?(window = -1) ?(backoff = 1) ?(cmdbackoff = 1) (
           let t = tval fs in
           let ran_out = !timer_start >= 0 && t - !timer_start >= !timer_d - 1 in
           (* a delay that ended within 100 ms of a fire request is credited to the request *)
-          let credited = (!first_fire >= 0 && t - !first_fire <= 100) || (Hashtbl.length req > 0 && t - !timer_start <= 100) in
+          let credited = (!first_fire >= 0 && t - !first_fire <= 100) || ((Hashtbl.length req > 0 || !sticky_req) && t - !timer_start <= 100) in
           if ran_out && not credited then add EvTimerElapsed;
           timer_start := -1;
           add EvDelayDone
@@ -96,15 +97,15 @@ let abstract ?(firstdelay = 0) ?(window = -1) ?(backoff = 1) ?(cmdbackoff = 1) (
           add EvDialBegin
       | "dial-end" :: _ :: "ok" :: x :: _ -> add (EvDialEnd (DOk0, zi (int_of_string x)))
       | "dial-end" :: _ :: "fail" :: _ -> add (EvDialEnd (DFail, zi 0))
-      | "dial-end" :: _ :: "fatal" :: _ -> add (EvDialEnd (DFatal, zi 0))
+      | "dial-end" :: _ :: "fatal" :: _ -> sticky_req := false; add (EvDialEnd (DFatal, zi 0))
       | "register" :: x :: _ -> add (EvRegister (zi (int_of_string x)))
-      | "onconnect" :: _ :: o :: _ -> add (EvOnConnect (conn_out_of o))
+      | "onconnect" :: _ :: o :: _ -> if o = "fatal" then sticky_req := false; add (EvOnConnect (conn_out_of o))
       | "onconnecterror" :: _ ->
           if fval "d" fs <> "" && int_of_string (fval "d" fs) <> backoff * 1000000 then
             direct := Printf.sprintf "sig=backoff-value OnConnectError was told a backoff of %s ns, the configured one is %d ms" (fval "d" fs) backoff :: !direct;
           last_connerr := tval fs;
           add EvConnErr
-      | "finalize" :: x :: _ -> add (EvFinalize (zi (int_of_string x)))
+      | "finalize" :: x :: _ -> sticky_req := false; add (EvFinalize (zi (int_of_string x)))
       | "cmdstart" :: id :: _ -> add (EvCmdStart (zi (int_of_string id), fval "force" fs = "true", fval "firenow" fs = "true"))
       | "firenow" :: id :: _ ->
           Hashtbl.replace req id ();
@@ -112,6 +113,7 @@ let abstract ?(firstdelay = 0) ?(window = -1) ?(backoff = 1) ?(cmdbackoff = 1) (
           add (EvFireNow (zi (int_of_string id)))
       | "waiting" :: id :: _ ->
           let fn = fval "firenow" fs = "true" in
+          if fn then sticky_req := true;
           if fn && !timer_start >= 0 && !first_fire < 0 then first_fire := tval fs;
           add (EvWaiting (zi (int_of_string id), fn, fval "status" fs <> "1"))
       | "exec" :: id :: k :: o :: rest ->
